@@ -22,12 +22,13 @@
 //!       on-demand creation: the server connection is built WITHOUT an object server; then
 //!       `conn.object_server().at("/t/a", Sp)` runs and, once it has returned (event `AT`), the peer sends n calls
 //!       (event `X<c>` just before each send).
-//!       variant  a  internal executor, the peer waits 30 ms after AT before sending
+//!       variant  a  internal executor, the peer first pings until a Ping is answered (the dispatch task has
+//!                   subscribed), then sends
 //!                b  internal executor, the peer sends immediately after AT
 //!                c  internal_executor(false): the socket reader task is already runnable (an unrelated
 //!                   signal from the peer is waiting in the socket) when the object server is created, and
 //!                   the executor is only ticked after the peer has sent its calls
-//!                d  like c but the executor is ticked (dispatch task subscribes) before the peer sends
+//!                d  like c but the executor is ticked and a Ping answered before the peer sends
 //!
 //! Output:  <OK|HANG>#<events joined by ,>      events in global order:
 //!   S<c> handler start   E<c> handler end   O<c>.<j> op j of the handler of call c completed
@@ -496,7 +497,10 @@ fn case_l(w: &[&str], ctx: &Arc<Ctx>) -> Verdict {
             return Verdict::Bad;
         }
         if variant == "a" {
-            std::thread::sleep(Duration::from_millis(30));
+            // the peer waits until the dispatch task demonstrably runs (a Ping has been answered)
+            if !wait_ready(&client) {
+                return Verdict::Bad;
+            }
         }
         v = client_burst(&client, ctx, &toks, true, Some(&required));
     } else {
@@ -525,7 +529,9 @@ fn case_l(w: &[&str], ctx: &Arc<Ctx>) -> Verdict {
         let mut early = None;
         if variant == "d" {
             early = Some(Tickers::start(&server, 1));
-            std::thread::sleep(Duration::from_millis(60));
+            if !wait_ready(&client) {
+                return Verdict::Bad;
+            }
         }
         // the peer sends after AT; the server's executor is ticked only later (variant c)
         let ctx2 = ctx.clone();
